@@ -9,7 +9,7 @@ answers (`qr` is an arbitrary accumulated state, so the statements hold for any 
 question in a query of any length), plus the header/class fields `DNSOutgoing` writes.
 5353, 0x8400 and 0x8000 come from the English property / RFC; `GenFacts` ties them to the source. -/
 namespace Zc.Reply
-open GenFacts
+open Zc.Reply.GenFacts
 
 /-! ## C11_legacy — source port ≠ 5353 -/
 
